@@ -146,7 +146,7 @@ func c05R2(c *Ctx) {
 			continue
 		}
 		info := fn.Info()
-		dels := findCalls(fn, func(call *ast.CallExpr) bool { return calleeName(info, call) == "networkService.deletePodResource" })
+		dels := findCalls(fn, func(call *ast.CallExpr) bool { return isRecordDelete(p, info, call) })
 		rels := p.CallsTo([]*FuncInfo{fn}, relM)
 		if len(dels) == 0 || len(rels) == 0 {
 			c.Bad("C05.R2", name+": release and delete present", p.Pos(fn.Decl), fn.Key(), "eniMgr.Release and deletePodResource", fmt.Sprintf("%d/%d", len(rels), len(dels)))
@@ -183,6 +183,22 @@ func c05R2(c *Ctx) {
 			}
 		}
 	}
+}
+
+// isRecordDelete: the call removes a pod record from the daemon's database — Storage.Delete on
+// the resource DB, or the daemon's one-line wrapper around it when it was not expanded.
+func isRecordDelete(p *Prog, info *types.Info, call *ast.CallExpr) bool {
+	callee := Callee(info, call)
+	if callee == nil {
+		return false
+	}
+	if callee == p.Method(storagePkg, "Storage", "Delete") {
+		if sel, ok := ast.Unparen(call.Fun).(*ast.SelectorExpr); ok {
+			return strings.HasSuffix(exprString(sel.X), "resourceDB")
+		}
+		return false
+	}
+	return callee.Name() == "deletePodResource"
 }
 
 // R3: the store writes disk first, memory second, reloads everything on open and never disables fsync.
